@@ -116,7 +116,7 @@ func judgeC10(c *C10Case, cx *Ctx) *Violation {
 	c2.VerifStartRecording()
 	input := append(kit.ClonePaths(c.Before), c.Line)
 	sol := c2.InflatePaths64(input, c.Delta, c.Join, c.End, c2.WithMitterLimit(c.MiterLimit), c2.WithArcTolerance(c.ArcTol))
-	evs := c2.VerifStopRecording()
+	evs := stopRecording()
 	raw := rawOffsetPaths(evs)
 	classCache := 0
 	if v := canonicalPaths(sol); v != nil {
